@@ -1,6 +1,7 @@
 import TPV.Model.GeomTerm
 import TPV.Model.GeomSdf
 import TPV.Model.GeomExtra
+import TPV.Model.GeomKleene
 open TPV TPV.Proto TPV.Geom TPV.GeomX
 
 def minAbs (l : List Rat) : String :=
@@ -28,6 +29,18 @@ def step (line : String) : String :=
       let res := containsAux τ onB d pts ρ
       let mg := margin τ onB d pts ρ
       return s!"{showOB res} {match mg with | some m => showRat m | none => "none"}"
+    | "kleene" => do
+      -- leaf-by-leaf decision of `D.boundary._contains` (TPV.Model.GeomKleene; soundness: Props/C05Kleene.lean
+      -- kleeneBdry_sound / kleeneBdry_sound_per_leaf): low = a quarter, high = four times the tolerances
+      let atol ← rat; let rtol ← rat; let batol ← rat
+      let mg ← rat
+      let d ← parseDom rat
+      let pts ← parseEnv rat
+      let ρ ← parseEnv rat
+      let τ : Tol Rat := ⟨atol, rtol, batol⟩
+      let lo : Tol Rat := ⟨atol / 4, rtol / 4, batol / 4⟩
+      let hi : Tol Rat := ⟨atol * 4, rtol * 4, batol * 4⟩
+      return (match kleeneBdry τ lo hi mg d pts ρ with | some true => "1" | some false => "0" | none => "u")
     | "sd" => do
       -- signed CSG margin (TPV.Model.GeomSdf; soundness: Props/C01.lean sd_pos_mem / sd_neg_not_mem)
       let d ← parseDom rat
